@@ -32,20 +32,20 @@ const (
 )
 
 type storeModel struct {
-	c        *Ctx
-	typ      *types.Named // the radius store struct
-	typName  string
-	get, put *ssa.Function
-	ctor     *ssa.Function
-	prune    *ssa.Function
-	inRadius *ssa.Function
-	keyFn    *ssa.Function // distance derivation (xor helper)
-	capField string
-	sizeFld  string
+	c          *Ctx
+	typ        *types.Named // the radius store struct
+	typName    string
+	get, put   *ssa.Function
+	ctor       *ssa.Function
+	prune      *ssa.Function
+	inRadius   *ssa.Function
+	keyFn      *ssa.Function // distance derivation (xor helper)
+	capField   string
+	sizeFld    string
 	inlineTest bool // the radius test is written out in Put (no helper)
-	radFld   string
-	idFld    string
-	mutexes  []string
+	radFld     string
+	idFld      string
+	mutexes    []string
 }
 
 func implementsContentStorage(p *core.Prog, t types.Type) bool {
@@ -254,6 +254,14 @@ func (m *storeModel) loadsRadius(f *ssa.Function) bool {
 	core.Calls(f, func(ci ssa.CallInstruction) {
 		if core.CalleeID(ci) == atomicValLoad && m.isField(ci.Common().Args[0], m.radFld) {
 			found = true
+		}
+		// through the store's own accessor of the radius (a one-parameter method returning it)
+		if g := core.StaticCalleeFn(ci); g != nil && g != f && core.InModule(g) && len(g.Params) == 1 && g.Signature.Results().Len() == 1 && g.Signature.Recv() != nil {
+			core.Calls(g, func(c2 ssa.CallInstruction) {
+				if core.CalleeID(c2) == atomicValLoad && m.isField(c2.Common().Args[0], m.radFld) {
+					found = true
+				}
+			})
 		}
 	})
 	return found
